@@ -93,9 +93,20 @@ def armOf (d : EnumDef) (dv : NameDerive) (v : Variant) : Except NameErr NameArm
   | .toStringDeprecated => toStringArm d v
   | _ => asRefArm d v
 
+/-- `collect::<Result<Vec<_>, _>>()` / early `?` return: first error wins -/
+def mapExcept {α β ε : Type} (f : α → Except ε β) : List α → Except ε (List β)
+  | [] => .ok []
+  | a :: as =>
+    match f a with
+    | .error e => .error e
+    | .ok b =>
+      match mapExcept f as with
+      | .error e => .error e
+      | .ok bs => .ok (b :: bs)
+
 /-- the generator fails when any enabled variant's arm fails -/
 def genNames (d : EnumDef) (dv : NameDerive) : Except NameErr (List (Bytes × NameArm)) :=
-  d.enabled.mapM (fun v => (armOf d dv v).map (fun a => (v.ident, a)))
+  mapExcept (fun v => (armOf d dv v).map (fun a => (v.ident, a))) d.enabled
 
 inductive ShowOut
   | text (b : Bytes)
